@@ -38,6 +38,7 @@ PROPS["C09"] = {
         {"name": "C09_geometry_kept", "status": "proved", "statement": "fill_segment preserves the geometry, so it holds at every call of every pass"},
         {"name": "C09_indices_are_rfc", "status": "proved", "statement": "forall geometries, passes, slices, segment positions and ANY block contents: the k-th iteration of the filling loop writes column j = slice*seg + i + k of its lane, reads the previous block at column (j - 1) mod q of the same lane, a reference lane in range (its own in the first slice of the first pass) and the reference index = RFC 9106's mapping of J1 (Argon2Spec.ref_pos)"},
         {"name": "C09_loop_is_its_trace", "status": "proved", "statement": "the memory the loop leaves is exactly B[curr] <- G(B[prev], B[ref]) (xor B[curr] after the first pass) applied for the trace's indices in order"},
+        {"name": "C09_compression_is_G", "status": "proved", "statement": "forall 128-word blocks: fill_block(prev, ref, next, with_xor) = RFC 9106 G(prev, ref) (3.5: R = X xor Y, P on the 8 rows then the 8 columns of 16-byte registers, Z xor R; 3.6: P from GB with a + b + 2*lo32(a)*lo32(b) and rotations 32/24/16/63), xor next after the first pass -- the in-place rounds over the sixteen index lists against the matrix form"},
         {"name": "C09_permutation_from_source", "status": "proved", "statement": "the permutation inside fill_block as TRANSLATED from argon2.rs this run (g closure statements with fblamka / rotation amounts, the eight g calls, the 2 x 8 x 16 index expressions) = the model's fill_block, for all blocks"},
         {"name": "C09_verify_iff", "status": "proved", "statement": "PwHash::verify = Ok iff re-hashing the offered password with the stored salt and config gives exactly the stored bytes (so it accepts the password that produced the hash; rejecting every other password is Argon2 collision resistance)"},
         {"name": "C09_rfc9106_argon2id", "status": "proved", "statement": "TEST (vm_compute): the model reproduces RFC 9106 section 5.3 (t=3, m=32, p=4, secret, associated data)"},
